@@ -50,6 +50,11 @@ CONFIGS = {
     "nostd-simd-ssse3": dict(feat="tlsh/simd", rustflags="-C target-feature=+ssse3"),
     "nostd-simd-sse41": dict(feat="tlsh/simd", rustflags="-C target-feature=+sse4.1"),
     "nostd-simd-avx2": dict(feat="tlsh/simd", rustflags="-C target-feature=+avx2"),
+    # the library without std (and without alloc) but WITH serde; the same with alloc only
+    # no std, shared-scratch style options: low-memory buckets with the `unsafe` feature
+    "nostd-lowmem-unsafe": dict(feat="tlsh/opt-default tlsh/opt-low-memory-buckets tlsh/unsafe"),
+    "nostd-serde": dict(feat="serde"),
+    "nostd-serde-buffered": dict(feat="serde tlsh/serde-buffered tlsh/alloc"),
     # feature interactions: combinations no single-purpose configuration above has
     "mix-a": dict(feat="easy std tlsh/simd tlsh/detect-features tlsh/opt-embedded-default tlsh/opt-low-memory-buckets "
                        "tlsh/opt-low-memory-hex-str-decode-quarter-table"),
@@ -74,7 +79,7 @@ for _n, _c in CONFIGS.items():
 # the configurations whose results must be bit-identical (C07)
 MATRIX = ["default", "default-unsafe", "naive", "opt-default", "embedded", "lowmem-half", "lowmem-quarter",
           "lowmem-min", "simd-static-sse2", "simd-static-ssse3", "simd-static-sse41", "simd-static-avx2",
-          "naive-unsafe", "nostd", "mix-a", "mix-b", "mix-c", "default-native", "simd-static-native"]
+          "naive-unsafe", "nostd", "mix-a", "mix-b", "mix-c", "default-native", "simd-static-native", "nostd-lowmem-unsafe"]
 
 
 class ToolError(Exception):
